@@ -1363,9 +1363,14 @@ package snaps
 // END-GENERATED-MATCH
 
 // ---- Clean (C07, C09, C10, C20) ---------------------------------------------------------------------
+// isTestHdr is defined over native strings only; in the other theories it is an opaque predicate (the lemmas hdr_shape,
+// hdr_id carry what is needed there) - its expansion made the line-theory proofs of examineSnaps unstable
+//@ end
+//@ mode str
 //@ specfun allDigits(b Str) Bool = forall i in 0..len(b): 48 <= b[i] && b[i] <= 57
 //@ specfun isTestHdr(b Str) Bool = len(b) > 0 && prefixof("[Test", b) && b[len(b) - 1] == 93 && indexof(b, " - ", 0) != -1
 //@      && allDigits(substr(b, indexof(b, " - ", 0) + 3, len(b) - 1 - (indexof(b, " - ", 0) + 3)))
+//@ mode all
 //@ func isNumber(b) returns (r)
 //@   mode str
 //@   assigns nothing
@@ -1664,7 +1669,7 @@ package snaps
 //@ mode str
 //@ lemma hdr_id @C07,C09,C10 use=ctl,lines: forall b Str {idOfHdr(b)}: isTestHdr(b) ==> "[" + idOfHdr(b) + "]" == b
 //@ lemma hdr_id_inv @C07,C09,C10 use=ctl,lines: forall x Str {"[" + x + "]"}: idOfHdr("[" + x + "]") == x
-//@ lemma hdr_shape @C07,C09,C10 use=ctl,lines: forall b Str {prefixof("[Test", b)}: isTestHdr(b) ==> b != "" && b != "---"
+//@ lemma hdr_shape @C07,C09,C10 use=ctl,lines: forall b Str {isTestHdr(b)}: isTestHdr(b) ==> b != "" && b != "---"
 //@ mode all
 //@ func examineSnaps(registry, used, runOnly, count, update, sort) returns (obs, err)
 //@   mode lines
